@@ -57,6 +57,21 @@ int format_print(FILE *fp, int format, int indent, const char *str, ...)
 	return 1;
 }
 
+int format_time(FILE *fp, int format, int indent, const char *label, time_t tv)
+{
+	char buf[32] = {0};
+#ifdef WIN32
+	if (ctime_s(buf, sizeof(buf), &tv) != 0) {
+		buf[0] = 0;
+	}
+#else
+	if (!ctime_r(&tv, buf)) {
+		buf[0] = 0;
+	}
+#endif
+	return format_print(fp, format, indent, "%s: %s", label, buf[0] ? buf : "\n");
+}
+
 int format_bytes(FILE *fp, int format, int indent, const char *str, const uint8_t *data, size_t datalen)
 {
 	size_t i;
